@@ -1,68 +1,32 @@
-"""Writes /verif/MANIFEST.json from the table below (kept in one place so that the file is always valid)."""
+"""Writes /verif/MANIFEST.json from harness/manifest/Cxx.json (one file per claimed property)."""
 import json, os
 V = os.path.dirname(os.path.dirname(os.path.abspath(__file__)))
 BASELINE = "cd /repo && /venv/bin/python -m pytest -ra -q -p no:cacheprovider --timeout=900 --continue-on-collection-errors"
-TB = ("Trusted: Coq 8.16.1 kernel and vm_compute (no native_compute); the hand-written Gallina model (coq/Model) of the anchored code; "
-      "the Python correspondence harness (harness/) that runs /repo's working tree and the model on the same inputs; ")
 
-CHECKS = {
- 'C12': dict(
-   text="Proof (Coq): for every length L>=1 and every associative operation the modelled stride-doubling scan (stride schedule (L-1).bit_length(), "
-        "one pass = reads before writes) returns the ordered prefix products, left and right variants, pure variant keeps / in-place variant overwrites the input "
-        "(theorems C12_* in coq/Props/C12.v, axiom-free). Tie: the real cumops/cumops_ are run for every L in 1..4096 and on rank<=4 tensors over every dim with a free "
-        "non-commutative 'segment' monoid and compared item-for-item with the model evaluated by vm_compute; LieTensor cumprod/cummul on exactly representable group elements "
-        "are compared with the model instantiated with the C03 group product over Q.",
-   note=TB + "axioms: none (Print Assumptions: closed). Not modelled: torch index_select/index_copy_ semantics beyond 'gather then scatter along dim' (observed through the tie).",
-   technique="Coq proof by induction (window invariant) + exact differential correspondence (vm_compute)", design="5/C12"),
- 'C03': dict(
-   text="Proof (Coq, over R): associativity, two-sided inverse, neutral identity for SO3/SE3/RxSO3/Sim3; matrix() has the documented blocks [[sR,t],[0,1]], "
-        "Act on 3- and homogeneous 4-vectors (incl. w=0) equals multiplication by it, matrix() is a homomorphism, act(XY)=act X . act Y; validity (unit quaternion, positive scale) "
-        "is preserved by every history of products and inverses (induction over the op list, any length), and |q|^2 after a history is the product of the factors' |.|^2 (drift law). "
-        "Tie: exact route - all ops of all four groups on Hurwitz-unit / dyadic operands, float64 == model over Q bit for bit, incl. op histories compared after every step; "
-        "floating histories (mixed @, Inv, Retr, +) up to 10^4 ops are measured against the 16 n eps drift bound. Search: exact group-law checker on the implementation over all 24 Hurwitz units.",
-   note=TB + "axioms: Coq Reals (ClassicalDedekindReals.sig_forall_dec, sig_not_dec, FunctionalExtensionality.functional_extensionality_dep). IEEE rounding is not modelled: the round-off clause is tie-only.",
-   technique="Coq proof (ring/field/nsatz over R, induction over histories) + exact differential correspondence", design="5/C03"),
- 'C20': dict(
-   text="Proof (Coq, any number type): for every sequence of (batched) losses, continual() of StopOnPlateau / ReduceToBason after a history equals 'no documented cause (budget, `patience` consecutive "
-        "non-decreases, rejection / all-below-tol) held at any step so far' (induction over the sequence, no length bound); once false it stays false; after reset every future non-negative loss sequence "
-        "is handled exactly as by a fresh controller; the driver loops of scheduler.optimize, ICP and MPC (incl. MPC's max_steps-=1) make at most max(1,steps) controller steps. "
-        "Tie: exact route - the real objects are put into every state of a grid (steps 0..7 x patience_count 0..5 x continual x last) and stepped with every input class, for configs steps 1..6 x patience 1..4 "
-        "(exhaustive at the transition level, a superset of all sequences up to length 12), random long traces with resets, and recorded loss streams of the real optimize/ICP/MPC loops replayed through the model loop.",
-   note=TB + "axioms: none for the generic theorems; the reset theorem is over R (Coq Reals axioms). IEEE inf/nan semantics of (last-loss)/loss is written into the model (rel_lt) and validated by the tie; NaN losses are not modelled.",
-   technique="Coq proof by induction over loss sequences + exhaustive transition-level exact correspondence", design="5/C20"),
- 'C08': dict(
-   text="Proof (Coq, over R, abstract parameter space / loss / retraction with retract(retract t d)(-d)=t / arbitrary solver oracle incl. raising at any solve): one LevenbergMarquardt.step terminates, returns and caches "
-        "the true loss of the parameters it leaves behind, which is <= the loss it was given unless reject_count reached `reject`, makes <= reject+1 solves, leaves the parameters either exactly as given "
-        "(all trials rejected / solver raised; loss unchanged) or as the single last trial; rejected trials restore the parameters; GN.step returns the new loss and records the old one; by induction over any "
-        "sequence of calls every returned value is the true loss. Strategies: documented transition tables (Constant/Adaptive/TrustRegion) and damping/radius/down within [min,max] after every update of any history. "
-        "Tie: scripted universe (scalar parameter, loss theta^2, user solver returning scripted steps or raising at solve j for every j, first k trials worse for k=0..reject+1, reject 0..16, three real strategies "
-        "with power-of-two hyper-parameters): full observable traces of up to 30 step() calls equal the model bit for bit; real (ill-)conditioned residual models with kernels are checked against the proved clauses.",
-   note=TB + "axioms: Coq Reals. Strategies with non-dyadic hyper-parameters and NaN losses are not in the exact tie; group retraction undo (Exp(-d)Exp(d)X = X) is an explicit hypothesis of the theorem (holds up to round-off in floats).",
-   technique="Coq proof (loop invariant, induction over calls) + exact trace correspondence in a scripted universe", design="5/C08"),
-}
-
-NOT_YET = {}
 
 def main():
     props = [json.loads(l) for l in open(os.path.join(V, 'properties.jsonl'))]
     checks, na = [], []
     for p in props:
         pid = p['id']
-        if pid in CHECKS and os.path.exists(os.path.join(V, 'harness', 'props', pid.lower() + '.py')):
-            c = CHECKS[pid]
+        mf = os.path.join(V, 'harness', 'manifest', pid + '.json')
+        if os.path.exists(mf) and os.path.exists(os.path.join(V, 'harness', 'props', pid.lower() + '.py')) \
+                and os.path.exists(os.path.join(V, 'coq', 'Props', pid + '.v')):
+            c = json.load(open(mf))
             checks.append(dict(property_id=pid, quick_cmd='./check %s --tier quick' % pid, thorough_cmd='./check %s --tier thorough' % pid,
                                evidence_file='evidence/%s.json' % pid, replay_cmd_template='./check %s --replay {path}' % pid, engine='coq-model+corr-harness',
-                               level_claimed=dict(category='proof', text=c['text'], design_ref=c['design']), level_note=c['note'], technique=c['technique']))
+                               level_claimed=dict(category='proof', text=c['text'], design_ref=c.get('design', '5/' + pid)), level_note=c['note'], technique=c['technique']))
         else:
-            na.append(dict(property_id=pid, reason=NOT_YET.get(pid, 'not claimed yet: model and proofs for this property are not built at this commit (see DESIGN.md section 5 for the plan)')))
+            na.append(dict(property_id=pid, reason='not claimed at this commit: the Coq model, proofs and correspondence check for this property are not finished (plan: DESIGN.md section 5)'))
     m = dict(version=1, setup_cmd='./check --setup',
-             hooks=dict(guard='PYPOSE_VERIF', enable='no source hooks are needed: checks import /repo working tree with PYPOSE_VERIF=1 set (unused by the source)',
+             hooks=dict(guard='PYPOSE_VERIF', enable='no source hooks are needed: checks import the working tree of /repo with PYPOSE_VERIF=1 set (unused by the source)',
                         baseline_off_cmd=BASELINE, source_commits=[], add_only=True),
              engines=[dict(name='coq-model+corr-harness', path='coq/ , harness/', serves_properties=[c['property_id'] for c in checks],
                            kind_free_text='Coq 8.16 models + theorems; Python harness running /repo and the model (vm_compute / interval) on the same inputs')],
              checks=checks, not_applicable=na,
              notes='see DESIGN.md; known_findings.txt lists recorded findings and fix: commits')
     json.dump(m, open(os.path.join(V, 'MANIFEST.json'), 'w'), indent=1)
+
 
 if __name__ == '__main__':
     main()
